@@ -244,7 +244,7 @@ func runC20(r *Run, verifDir string) {
 			id := callID(c)
 			if id.pkg == "sync" && id.recv == "Map" && id.name == "Store" {
 				g := globalRoot(c.Args[0], 0)
-				if g != nil && (g.Name() == "encodeFuncsCache" || g.Name() == "decodeFuncsCache") {
+				if g != nil && g.Pkg != nil && g.Pkg.Pkg.Path() == ttlvPath && strings.Contains(g.Type().String(), "sync.Map") {
 					nCache++
 				} else {
 					nBad++
@@ -302,6 +302,123 @@ func runC20(r *Run, verifDir string) {
 		} else {
 			r.OK("C20.E4", key, fn.Pos(), "%d captured variable(s), none of them codec state; no store to a captured variable", len(fn.FreeVars))
 		}
+	}
+
+	// ---------------- E6
+	r.Rule("C20.E6", "a plan is published in a cache only when complete: nothing the stored value refers to is written after the Store/LoadOrStore", 2)
+	for _, fn := range p.OwnFuncs() {
+		if idOf(fn).pkg != ttlvPath {
+			continue
+		}
+		ord := 0
+		allInstrs(fn, func(in ssa.Instruction) {
+			c := callOf(in)
+			if c == nil {
+				return
+			}
+			id := callID(c)
+			if id.pkg != "sync" || id.recv != "Map" || !(id.name == "Store" || id.name == "LoadOrStore" || id.name == "Swap" || id.name == "CompareAndSwap") {
+				return
+			}
+			if g := globalRoot(c.Args[0], 0); g == nil {
+				return
+			}
+			ord++
+			key := fmt.Sprintf("%s/publish#%d", fnKey(fn), ord)
+			val := c.Args[len(c.Args)-1]
+			// instructions that can execute after the publication
+			after := map[ssa.Instruction]bool{}
+			seenB := map[*ssa.BasicBlock]bool{}
+			var walk func(b *ssa.BasicBlock)
+			walk = func(b *ssa.BasicBlock) {
+				if seenB[b] {
+					return
+				}
+				seenB[b] = true
+				for _, i2 := range b.Instrs {
+					after[i2] = true
+				}
+				for _, s2 := range b.Succs {
+					walk(s2)
+				}
+			}
+			past := false
+			for _, i2 := range in.Block().Instrs {
+				if past {
+					after[i2] = true
+				}
+				if i2 == in {
+					past = true
+				}
+			}
+			for _, s2 := range in.Block().Succs {
+				walk(s2)
+			}
+			// cells the stored value refers to
+			var cells []ssa.Value
+			complete := ""
+			var visit func(v ssa.Value, d int)
+			seenV := map[ssa.Value]bool{}
+			visit = func(v ssa.Value, d int) {
+				if d > 8 || seenV[v] {
+					return
+				}
+				seenV[v] = true
+				switch x := v.(type) {
+				case *ssa.MakeInterface:
+					visit(x.X, d+1)
+				case *ssa.ChangeType:
+					visit(x.X, d+1)
+				case *ssa.MakeClosure:
+					for _, b := range x.Bindings {
+						visit(b, d+1)
+					}
+				case *ssa.Alloc:
+					cells = append(cells, x)
+				case *ssa.Phi:
+					for _, e := range x.Edges {
+						visit(e, d+1)
+					}
+				case *ssa.Call:
+					complete = "the result of " + callID(&x.Call).String() + ", built before the publication"
+				case *ssa.Extract:
+					visit(x.Tuple, d+1)
+				case *ssa.UnOp:
+					visit(x.X, d+1)
+				}
+			}
+			visit(val, 0)
+			bad := ""
+			for _, cell := range cells {
+				for _, ref := range *cell.Referrers() {
+					if !after[ref] {
+						continue
+					}
+					switch y := ref.(type) {
+					case *ssa.Store:
+						if y.Addr == cell {
+							bad = fmt.Sprintf("the variable %s captured by the published plan is assigned after the publication", cell.(*ssa.Alloc).Comment)
+						}
+					case *ssa.FieldAddr, *ssa.IndexAddr:
+						for _, r2 := range *y.(ssa.Value).Referrers() {
+							if st, ok := r2.(*ssa.Store); ok && after[st] {
+								bad = fmt.Sprintf("a part of %s, reachable from the published plan, is written after the publication", cell.(*ssa.Alloc).Comment)
+							}
+						}
+					}
+				}
+			}
+			switch {
+			case bad != "":
+				r.Bad("C20.E6", key, in.Pos(), "%s publishes a plan in the shared cache before it is complete: %s; a goroutine that finds the entry while the builder is still running encodes/decodes with the partial plan and silently drops fields", fnKey(fn), bad)
+			case len(cells) == 0 && complete != "":
+				r.OK("C20.E6", key, in.Pos(), "published value is %s", complete)
+			case len(cells) == 0:
+				r.Unk("C20.E6", key, in.Pos(), "the published value is neither a builder result nor a local closure/allocation: its completeness at the publication point is not decided")
+			default:
+				r.OK("C20.E6", key, in.Pos(), "published closure/allocation: %d captured cell(s), none written after the publication", len(cells))
+			}
+		})
 	}
 
 	// ---------------- E5
